@@ -624,6 +624,7 @@ impl<'a> Sim<'a> {
         let out = self.w.process_tx(&tx.ixs, &tx.opts);
         let class = out.class();
         obs.outcome(tx.role, tx.op, &class);
+        obs.probe(&format!("out:{}:{}", tx.op, class));
         obs.event(|| format!("{} by {} -> {} t={}", tx.op, tx.role, class, self.w.clock.unix_timestamp));
         if tx.opts.fail_cpi_at.is_some() && !out.ok {
             obs.fault("cpi_failure_injected");
